@@ -649,6 +649,917 @@ Section MicroH.
   Qed.
 End MicroH.
 
+Section MicroH2.
+  Context {T : Type}.
+  Variable tp : transport T response cmsg.
+  Variable lim : option nat.
+  Notation st := (@sstate T).
+
+  (* ---- a request is accepted ------------------------------------------------------------------------ *)
+  Lemma BH_next_accept : forall o (s : st) id dl tr body s3 h s4,
+    InvU o s -> all_owned o s -> c_err (o_v o) = false -> BH o s ->
+    do_next tp s = (RItem (MReq id dl tr body), s3) ->
+    start_request id dl s3 = Some (h, s4) ->
+    QH (o_call lim o (CNext (RItem (MReq id dl tr body)))) s4
+       {| q_id := id; q_h := h; q_dl := dl; q_tr := tr; q_body := body |}.
+  Proof.
+    intros o s id dl tr body s3 h s4 HI Hall Hce (P & G) H Hs.
+    destruct (do_next_core tp _ _ _ H) as ((C1 & C2 & C3 & C4 & C5 & C6 & C7 & C8) & F & Q & _).
+    destruct (ocall_next_proj lim o (RItem (MReq id dl tr body))) as (_ & _ & _ & _ & _ & _ & I & Pn).
+    destruct (ocall_flags_next lim o (RItem (MReq id dl tr body))) as (V8 & _ & B1). cbv zeta in *.
+    rewrite (pend_ok_open _ _ P), andb_true_r in V8.
+    destruct (start_request_shape _ _ _ _ _ Hs) as (Htr & Hh & Hi & Ht & Hn & Hha & Hab & Hc & Hw & Hd & Hf & Hq & _).
+    intros Hb. rewrite B1 in Hb. apply andb_true_iff in Hb. destruct Hb as [Hb Hyp].
+    destruct (G Hb) as (A & B). cbn [q_id].
+    set (o' := o_call lim o (CNext (RItem (MReq id dl tr body)))) in *.
+    assert (A4 : InvH o' s4).
+    { apply (InvH_grow o o' s s4 A I); try congruence.
+      intros e He. rewrite Hi, C3. apply in_or_app. left. exact He. }
+    split; [exact A4|split; [congruence|]].
+    (* every last incarnation of the id has been answered *)
+    assert (Hans : forall k oi, nth_error (o_incs o) k = Some oi -> oi_id oi = id ->
+                                lastk (o_incs o) k id -> oi_wire oi = WAnswered).
+    { intros k oi Hk Hid L. unfold b1_hyp in Hyp. pose proof (last_any_spec id (o_incs o)) as LS.
+      destruct (last_any id (o_incs o)) as [i|].
+      - destruct LS as (k0 & Hk0 & Hid0 & L0).
+        assert (k = k0) by (eapply lastk_unique; eauto). subst k0. rewrite Hk in Hk0. inversion Hk0; subst i.
+        destruct (oi_wire oi) eqn:Ew; try discriminate; [|reflexivity].
+        exfalso. destruct (h_open_tracked _ _ A k oi Hk Ew) as (hr & e & X1 & X2 & X3).
+        destruct (Hall Hce e X2) as (k1 & Ho).
+        destruct (owns_facts o s k1 e HI Ho) as (hr1 & oi1 & Y1 & Y2 & Y3 & Y4 & _).
+        destruct (holder_is_owner o s e k hr k1 hr1 HI X1 (eq_sym X3) Y1 Y3) as (-> & ->).
+        rewrite Hk in Y2. inversion Y2; subst oi1.
+        rewrite <- C3 in X2. apply (tracked_false_not_in _ _ Htr e X2). congruence.
+      - exfalso. exact (LS k oi Hk Hid). }
+    constructor; rewrite ?I, ?Hha, ?C1, ?Hq, ?Q, ?Hc, ?C6.
+    - intros k oi Hk Hid. destruct (is_open (oi_wire oi)) eqn:Eo; [|reflexivity].
+      rewrite <- Hid in Hans. rewrite (Hans k oi Hk eq_refl) in Eo; [discriminate|].
+      rewrite Hid. rewrite <- Hid. apply (h_open_last _ _ A k oi Hk Eo).
+    - intros k hr oi Hk Hoi Hid. destruct (unsent_or_over (h_st hr)) as [Hu|Ho]; [|exact Ho].
+      exfalso. destruct (h_unsent _ _ A k hr oi Hk Hoi Hu) as (L & W & _). apply W.
+      apply (Hans k oi Hoi Hid). rewrite <- Hid. exact L.
+    - intros Hin. apply in_map_iff in Hin. destruct Hin as (m & Hm & Hin).
+      destruct (h_q_prov _ _ A m Hin) as (k & hr & oi & X1 & X2 & X3 & X4 & X5 & X6 & X7).
+      subst id. apply X7. apply (Hans k oi X2 X3 X4).
+    - intros Hin. destruct (h_cancels _ _ A id Hin) as (k & hr & oi & X1 & X2 & X3 & X4 & X5 & X6 & X7).
+      apply X7. apply (Hans k oi X2 X3 X4).
+  Qed.
+
+  (* ---- the throttle reply for the request just accepted -------------------------------------------- *)
+  Lemma QH_throttle : forall o (s : st) q e s' r,
+    InvU o s -> PendQ o s q -> QH o s q ->
+    In {| e_id := q_id q; e_h := q_h q; e_dl := q_dl q |} (s_inflight s) ->
+    base_start_send tp (mkresp (q_id q) BThrottle) s = (e, s') ->
+    BH (o_call lim o (CSend (mkresp (q_id q) BThrottle) r)) s'.
+  Proof.
+    intros o s q e s' r HI HP G Hin H.
+    destruct (ocall_send_proj lim o (mkresp (q_id q) BThrottle) r) as (_ & _ & _ & _ & _ & _ & I & Pn).
+    destruct (ocall_flags_send lim o (mkresp (q_id q) BThrottle) r) as (V8 & _ & B1).
+    cbv zeta in *. cbn [resp_body resp_id] in *.
+    split; [unfold pend_ok; rewrite Pn; exact Logic.I|].
+    intros Hb. rewrite B1 in Hb. destruct (G Hb) as (A & B & PH).
+    pose proof (last_open_closed _ _ (ph_closed _ _ _ PH)) as Hlo.
+    rewrite Hlo in I. cbn [close_at] in I. unfold not_must in V8. rewrite Hlo, andb_true_r in V8.
+    split; [|congruence].
+    destruct (base_start_send_shape tp _ _ _ _ H) as [(Hn & _ & _)|(en & r0 & Hen & He & B1' & B2 & B3 & B4 & B5 & B6 & B7 & B8 & B9 & B10 & B11 & B12 & L)].
+    { exfalso. cbn in Hn. apply (find_entry_none _ _ Hn _ Hin). reflexivity. }
+    cbn [resp_id] in *.
+    apply (InvH_drop o _ s s' (q_id q) A (u_len _ _ HI) I); auto.
+    - intros x Hx. rewrite B6 in Hx. exact Hx.
+    - intros h0 Hh0. rewrite B5. exact Hh0.
+    - intros k hr e0 Hk He0 Hh Hid. exfalso.
+      destruct HP as (_ & _ & Q3 & _ & _ & _ & Q7).
+      pose proof (Q7 e0 He0 Hid) as ->. cbn in Hh.
+      apply (Q3 hr); [eapply nth_error_In; eauto|congruence].
+  Qed.
+
+  (* ---- a response leaves the queue and is handed to the channel ------------------------------------ *)
+  Lemma InvH_pop : forall o (s : st) m rest,
+    InvH o s -> s_respq s = m :: rest -> InvH o (add_permit (set_respq s rest)).
+  Proof.
+    intros o s m rest A Eq.
+    destruct (add_permit_shape (set_respq s rest)) as (A1 & A2 & A3 & A4 & A5 & A6 & A7 & A8 & A9 & A10 & A11 & A12 & A13).
+    cbv zeta in *. sproj.
+    assert (Hnd : NoDup (map resp_id rest)).
+    { pose proof (h_q_nodup _ _ A) as Hn. rewrite Eq in Hn. cbn in Hn. inversion Hn; assumption. }
+    apply (InvH_hst o o s _ A eq_refl); auto.
+    - intros j hr' Hj. destruct (A2 j hr' Hj) as (hr & X1 & X2 & X3 & X4). exists hr. split; [exact X1|split; [exact X2|]].
+      destruct X4 as [X4|(b & X4 & X5)]; [left; exact X4|right; left]. rewrite X4, X5. cbn. auto.
+    - intros j hr Hj. assert (Hlt : j < length (s_handlers (add_permit (set_respq s rest)))).
+      { rewrite <- (map_length h_h), A1, map_length. apply nth_error_Some. congruence. }
+      apply nth_error_Some in Hlt. destruct (nth_error (s_handlers (add_permit (set_respq s rest))) j); [eauto|congruence].
+    - intros h Hh. rewrite A6. exact Hh.
+    - intros m' Hm'. rewrite A11 in Hm'. rewrite Eq. right. exact Hm'.
+    - rewrite A11. exact Hnd.
+  Qed.
+
+  Lemma PendH_pop : forall o (s : st) m rest id,
+    PendH o s id -> s_respq s = m :: rest -> PendH o (add_permit (set_respq s rest)) id.
+  Proof.
+    intros o s m rest id [P1 P2 P3 P4] Eq.
+    destruct (add_permit_shape (set_respq s rest)) as (A1 & A2 & A3 & A4 & A5 & A6 & A7 & A8 & A9 & A10 & A11 & A12 & A13).
+    cbv zeta in *. sproj. constructor; rewrite ?A7, ?A11; auto.
+    - intros k hr' oi Hk Hoi Hid. destruct (A2 k hr' Hk) as (hr & X1 & _ & _ & X4).
+      pose proof (P2 k hr oi X1 Hoi Hid) as Hov.
+      destruct X4 as [X4|(b & X4 & X5)]; [rewrite X4; exact Hov|rewrite X4 in Hov; destruct Hov].
+    - intros Hin. apply P3. rewrite Eq. cbn. right. exact Hin.
+  Qed.
+
+  (* the entry with the id of the response, if tracked, is held by a handler *)
+  Definition held (s : st) (id : N) : Prop :=
+    forall e, In e (s_inflight s) -> e_id e = id -> exists hr, In hr (s_handlers s) /\ h_h hr = e_h e.
+
+  Lemma GH_send : forall o (s : st) m rest e s2,
+    InvU o s -> c_err (o_v o) = false -> GH o s -> s_respq s = m :: rest ->
+    resp_body m <> BThrottle -> (h_b1 (o_v o) = true -> held s (resp_id m)) ->
+    base_start_send tp m (add_permit (set_respq s rest)) = (e, s2) ->
+    (find_entry (resp_id m) (add_permit (set_respq s rest)) = None -> GH o s2)
+    /\ (forall en r, find_entry (resp_id m) (add_permit (set_respq s rest)) = Some en ->
+                     GH (o_call lim o (CSend m r)) s2).
+  Proof.
+    intros o s m rest e s2 HI Hce G Eq Hnt Hheld H.
+    set (sA := add_permit (set_respq s rest)) in *.
+    pose proof (InvU_add_permit o s rest HI) as HIA. fold sA in HIA.
+    destruct (add_permit_shape (set_respq s rest)) as (A1 & A2 & A3 & A4 & A5 & A6 & A7 & A8 & A9 & A10 & A11 & A12 & A13).
+    cbv zeta in *. fold sA in A1, A2, A3, A4, A5, A6, A7, A8, A9, A10, A11, A12, A13. sproj.
+    destruct (base_start_send_shape tp _ _ _ _ H) as [(Hn & He & Hs)|(en & r0 & Hen & He & B1 & B2 & B3 & B4 & B5 & B6 & B7 & B8 & B9 & B10 & B11 & B12 & L)].
+    - split; [|intros en r Hen; congruence]. intros _ Hb. destruct (G Hb) as (A & B). rewrite Hs.
+      split; [eapply InvH_pop; eauto|exact B].
+    - split; [intros Hn; congruence|]. intros en' r _.
+      destruct (ocall_send_proj lim o m r) as (_ & _ & _ & _ & _ & _ & P7).
+      destruct (ocall_flags_send lim o m r) as (V8 & _ & Bb). cbv zeta in *.
+      assert (P7' : o_incs (o_call lim o (CSend m r)) = close_at (last_open (resp_id m) (o_incs o)) WAnswered (o_incs o)).
+      { destruct (resp_body m); try (destruct P7 as [P7 _]; exact P7). congruence. }
+      assert (V8' : v08 (o_v (o_call lim o (CSend m r))) = v08 (o_v o) && body_ok m (o_incs o)).
+      { destruct (resp_body m); try exact V8. congruence. }
+      clear P7 V8. intros Hb. rewrite Bb in Hb. destruct (G Hb) as (A & B).
+      set (o' := o_call lim o (CSend m r)) in *.
+      (* the owner of the entry is the producer of the response *)
+      destruct (find_entry_some _ _ _ Hen) as (Hin & Hid). rewrite A4 in Hin.
+      assert (Ho : exists k1, owns o s k1 en).
+      { destruct (u_owner _ _ HI en Hin) as [Ho|[_ Hno]]; [exact Ho|].
+        exfalso. destruct (Hheld Hb en Hin Hid) as (hr & X1 & X2). exact (Hno hr X1 X2). }
+      destruct Ho as (k1 & Ho).
+      destruct (owns_facts o s k1 en HI Ho) as (hr1 & oi1 & X1 & X2 & X3 & X4 & X5 & X6 & X7).
+      rewrite Hid in X4, X6, X7.
+      destruct (h_q_prov _ _ A m) as (k & hr & oi & Y1 & Y2 & Y3 & Y4 & Y5 & Y6 & Y7); [rewrite Eq; left; reflexivity|].
+      assert (k1 = k) by (eapply lastk_unique; eauto). subst k1.
+      rewrite X1 in Y1. inversion Y1; subst hr1. rewrite X2 in Y2. inversion Y2; subst oi1.
+      assert (Hbody : body_ok m (o_incs o) = true).
+      { unfold body_ok. rewrite X7, X2, Y6. apply rbody_eqb_refl. }
+      split; [|rewrite V8', B, Hbody; reflexivity].
+      pose proof (InvH_pop o s m rest A Eq) as AA. fold sA in AA.
+      assert (HlenA : length (o_incs o) = length (s_handlers sA)) by exact (u_len _ _ HIA).
+      assert (Hnd : NoDup (map resp_id (m :: rest))) by (rewrite <- Eq; exact (h_q_nodup _ _ A)).
+      assert (AC : InvH o' sA).
+      { apply (InvH_close o o' sA (Some k) WAnswered AA HlenA); [rewrite P7', X7; reflexivity|reflexivity|].
+        intros _ kc hrc oic [= <-] Hkc Hoic. rewrite X2 in Hoic. inversion Hoic; subst oic.
+        destruct (A2 k hrc Hkc) as (hr0 & Z1 & _ & _ & Z4). rewrite X1 in Z1. inversion Z1; subst hr0.
+        split.
+        - destruct Z4 as [Z4|(b & Z4 & _)]; congruence.
+        - intros m' Hm'. rewrite A11 in Hm'. cbn in Hnd. apply NoDup_cons_iff in Hnd. destruct Hnd as [Hni _].
+          intros Heq. apply Hni. rewrite <- X4, <- Heq. apply in_map. exact Hm'. }
+      apply (InvH_drop o' o' sA s2 (resp_id m) AC); auto.
+      + rewrite P7', close_at_length. exact HlenA.
+      + intros x Hx. rewrite B6 in Hx. exact Hx.
+      + intros h0 Hh0. rewrite B5. exact Hh0.
+      + intros k' hr' e0 Hk' He0 Hh' Hid0.
+        assert (e0 = en).
+        { apply (NoDup_map_in_inj _ _ e_id (s_inflight sA)); [rewrite A4; exact (u_idnodup _ _ HI)|exact He0|rewrite A4; exact Hin|congruence]. }
+        subst e0.
+        destruct (A2 k' hr' Hk') as (hr0 & Z1 & Z2 & _ & Z4).
+        destruct (holder_is_owner o s en k' hr0 k hr HI Z1 (eq_trans (eq_sym Z2) (eq_sym Hh')) X1 X3) as (-> & ->).
+        split.
+        * intros oi' Hoi'. rewrite P7', X7 in Hoi'. cbn [close_at] in Hoi'.
+          rewrite (upd_nth_same _ _ _ _ X2) in Hoi'. inversion Hoi'; subst oi'. cbn. discriminate.
+        * right. destruct Z4 as [Z4|(b & Z4 & _)]; [rewrite Z4, Y5; exact Logic.I|congruence].
+  Qed.
+End MicroH2.
+
+(* ------------------------------------------------------------------------------------------ *)
+(* the loops: InvH (with v08 and the pending-request bookkeeping) at every micro-step boundary,
+   next to ServerSim3's InvU *)
+Section LoopsH.
+  Context {T : Type}.
+  Variable tp : transport T response cmsg.
+  Variable lim : option nat.
+  Notation st := (@sstate T).
+  Notation ocs := (fold_left (o_call lim)).
+
+  Definition postH (r : pres treq) (o : ostate) (s : st) : Prop :=
+    match r with
+    | PReady q => QH o s q
+    | PFuel => BH o s
+    | _ => BH o s /\ o_pend o = None
+    end.
+
+  Lemma base_invH : forall f (s : st) r s' o,
+    BInv o s -> BH o s -> base_poll_next tp f s = (r, s') ->
+    exists new, ext s s' new /\ post r (ocs new o) s' /\ postH r (ocs new o) s'.
+  Proof.
+    induction f as [|f IH]; intros s r s' o HB HH H; cbn [base_poll_next] in H.
+    { injection H as <- <-. exists []. split; [apply ext_refl|split; [exact HB|exact HH]]. }
+    destruct HB as (HI & Hh & Hce).
+    (* cancel queue *)
+    set (cs := match s_cancels s with
+               | id :: r0 => (RSReady, snd (remove_request id (set_cancels s r0)))
+               | [] => (RSClosed, s) end) in H.
+    assert (Hc : (BInv o (snd cs) /\ BH o (snd cs)) /\ s_log (snd cs) = s_log s).
+    { subst cs. destruct (s_cancels s) as [|id r0] eqn:EC; cbn [snd];
+        [split; [exact (conj (conj HI (conj Hh Hce)) HH)|reflexivity]|].
+      split; [|rewrite log_remove_request; reflexivity].
+      split.
+      - split; [apply InvU_server_cancel; auto|split; [|exact Hce]].
+        destruct (remove_request_shape id (set_cancels s r0)) as [(_ & Heq & _)|(_ & _ & B1 & B2 & B3 & _)];
+          cbv zeta in *.
+        + rewrite Heq. exact Hh.
+        + eapply (handled_remove s); eauto.
+      - apply BH_server_cancel; auto. apply all_owned_of_handled; auto. }
+    destruct cs as [cst s1]. cbn [snd] in Hc. destruct Hc as (((HI1 & Hh1 & _) & HH1) & Hl1).
+    (* expiry *)
+    destruct (poll_expired s1) as [est s2] eqn:EE.
+    assert (HI2 : InvU o s2) by (eapply InvU_poll_expired; eauto).
+    assert (HH2 : BH o s2) by exact (BH_expired o s1 est s2 HI1 HH1 EE).
+    pose proof (log_poll_expired s1) as Hl2. rewrite EE in Hl2. cbn [snd] in Hl2.
+    assert (Hh2 : handled s2).
+    { destruct (poll_expired_shape _ _ _ EE) as (A1 & A2 & A3 & A4 & A5 & A6 & _ & _ & _ & _ & _ & HS).
+      destruct HS as [(_ & B1 & _)|(_ & id & w & _ & _ & _ & C4 & _)].
+      - apply (handled_sub s1 s2 Hh1); [rewrite B1; auto|rewrite A1; reflexivity].
+      - eapply (handled_remove s1); eauto. }
+    assert (Hall2 : all_owned o s2) by (apply all_owned_of_handled; auto).
+    assert (Hown2 : pend_id o = None \/ all_owned o s2) by (right; exact Hall2).
+    assert (H02 : ext s s2 []) by (apply ext_same; congruence).
+    assert (HB2 : BInv o s2) by (exact (conj HI2 (conj Hh2 Hce))).
+    (* the final status *)
+    assert (Hfin : forall rst sx new0 r s',
+               ext s sx new0 -> BInv (ocs new0 o) sx -> BH (ocs new0 o) sx -> o_pend (ocs new0 o) = None ->
+               match combine (combine cst est) rst with
+               | RSReady => base_poll_next tp f sx
+               | RSClosed => (PEnd, sx)
+               | RSPending => (PPending, sx)
+               end = (r, s') ->
+               exists new, ext s s' new /\ post r (ocs new o) s' /\ postH r (ocs new o) s').
+    { intros rst sx new0 r0 s0 Hx HBx HHx Hpx HE. destruct (combine (combine cst est) rst).
+      - destruct (IH _ _ _ _ HBx HHx HE) as (n1 & E1 & Post & PostH). exists (new0 ++ n1).
+        split; [eapply ext_trans; eauto|]. rewrite ocs_app. split; assumption.
+      - injection HE as <- <-. exists new0. split; [exact Hx|split; [exact HBx|exact (conj HHx Hpx)]].
+      - injection HE as <- <-. exists new0. split; [exact Hx|split; [exact HBx|exact (conj HHx Hpx)]]. }
+    destruct (s_fused s2) eqn:EF.
+    - apply (Hfin RSClosed s2 []); [exact H02|exact HB2|exact HH2| |exact H].
+      cbn [fold_left]. destruct HH2 as (P2 & _). unfold pend_ok in P2.
+      destruct (o_pend o) as [[[[a b] d] e]|]; [destruct P2; congruence|reflexivity].
+    - destruct (do_next tp s2) as [rr s3] eqn:EN.
+      destruct (do_next_core tp _ _ _ EN) as (C3 & F3 & _ & _ & _ & L3).
+      assert (H23 : ext s s3 [CNext rr]).
+      { unfold ext in *. rewrite L3, H02. reflexivity. }
+      assert (Hh3 : handled s3).
+      { destruct C3 as (D1 & D2 & D3 & _). apply (handled_sub s2 s3 Hh2); [rewrite D3; auto|rewrite D1; reflexivity]. }
+      destruct rr as [m| | |].
+      + destruct m as [id dl tr body|id tr].
+        * destruct (start_request id dl s3) as [[h s4]|] eqn:ES.
+          -- injection H as <- <-.
+             destruct (step_next_accept tp lim o s2 id dl tr body s3 h s4 HI2 Hown2 Hce EN ES) as (A & B & C & D).
+             pose proof (BH_next_accept tp lim o s2 id dl tr body s3 h s4 HI2 Hall2 Hce HH2 EN ES) as QQ.
+             exists [CNext (RItem (MReq id dl tr body))].
+             split; [|cbn [fold_left post postH]; split; [exact (conj (conj A (conj B C)) D)|exact QQ]].
+             unfold ext in *. rewrite (log_start_request _ _ _ _ _ ES). exact H23.
+          -- destruct (step_next_dup tp lim o s2 id dl tr body s3 HI2 Hown2 Hce EN) as (A & B & C).
+             pose proof (BH_next_dup tp lim o s2 id dl tr body s3 HI2 Hall2 Hce HH2 EN EF ES) as HH3.
+             assert (HB3 : BInv (ocs [CNext (RItem (MReq id dl tr body))] o) s3)
+               by (cbn [fold_left]; exact (conj A (conj Hh3 C))).
+             destruct (IH _ _ _ _ HB3 HH3 H) as (n1 & E1 & Post & PostH).
+             exists ([CNext (RItem (MReq id dl tr body))] ++ n1). split; [eapply ext_trans; eauto|].
+             rewrite ocs_app. split; assumption.
+        * destruct (step_next_cancel tp lim o s2 id tr s3 HI2 Hown2 Hce EN) as (A & B).
+          pose proof (BH_next_cancel tp lim o s2 id tr s3 HI2 Hall2 Hce HH2 EN) as HH3.
+          apply (Hfin RSReady (cancel_request id s3) [CNext (RItem (MCancel id tr))]); [| | | |exact H].
+          -- unfold ext in *. rewrite log_cancel_request. exact H23.
+          -- cbn [fold_left]. split; [exact A|split].
+             ++ destruct (cancel_request_shape id s3) as [(Heq & _)|(e & _ & B1 & _ & _ & B4 & _)]; cbv zeta in *.
+                ** rewrite Heq. exact Hh3.
+                ** eapply (handled_remove s3); eauto.
+             ++ destruct (ocall_next_proj lim o (RItem (MCancel id tr))) as (_ & _ & P3 & _). cbv zeta in P3. congruence.
+          -- exact HH3.
+          -- cbn [fold_left]. destruct (ocall_next_proj lim o (RItem (MCancel id tr))) as (_ & _ & _ & _ & _ & _ & _ & Pn). exact Pn.
+      + injection H as <- <-.
+        destruct (step_next_idle tp lim o s2 RErr s3 HI2 Hown2 Hce EN I) as (A & B).
+        pose proof (BH_next_idle tp lim o s2 RErr s3 HH2 EN I) as HH3.
+        exists [CNext RErr]. split; [exact H23|]. cbn [fold_left post postH]. split.
+        * split; [exact A|split; [exact Hh3|]].
+          destruct (ocall_next_proj lim o RErr) as (_ & _ & P3 & _). cbv zeta in P3. congruence.
+        * split; [exact HH3|]. destruct (ocall_next_proj lim o RErr) as (_ & _ & _ & _ & _ & _ & _ & Pn). exact Pn.
+      + destruct (step_next_idle tp lim o s2 REof s3 HI2 Hown2 Hce EN I) as (A & B).
+        pose proof (BH_next_idle tp lim o s2 REof s3 HH2 EN I) as HH3.
+        apply (Hfin RSClosed (set_fused s3 true) [CNext REof]); [exact H23| |exact HH3| |exact H].
+        * cbn [fold_left]. split; [exact A|split; [exact Hh3|]].
+          destruct (ocall_next_proj lim o REof) as (_ & _ & P3 & _). cbv zeta in P3. congruence.
+        * cbn [fold_left]. destruct (ocall_next_proj lim o REof) as (_ & _ & _ & _ & _ & _ & _ & Pn & _). exact Pn.
+      + destruct (step_next_idle tp lim o s2 RPending s3 HI2 Hown2 Hce EN I) as (A & B).
+        pose proof (BH_next_idle tp lim o s2 RPending s3 HH2 EN I) as HH3.
+        apply (Hfin RSPending s3 [CNext RPending]); [exact H23| |exact HH3| |exact H].
+        * cbn [fold_left]. split; [exact A|split; [exact Hh3|]].
+          destruct (ocall_next_proj lim o RPending) as (_ & _ & P3 & _). cbv zeta in P3. congruence.
+        * cbn [fold_left]. destruct (ocall_next_proj lim o RPending) as (_ & _ & _ & _ & _ & _ & _ & Pn). exact Pn.
+  Qed.
+
+  (* MaxRequests::poll_next *)
+  Lemma maxreq_invH : forall f limit (s : st) r s' o,
+    BInv o s -> BH o s -> o_pend o = None -> maxreq_poll_next tp f limit s = (r, s') ->
+    exists new, ext s s' new /\ post r (ocs new o) s' /\ postH r (ocs new o) s'.
+  Proof.
+    induction f as [|f IH]; intros limit s r s' o HB HH Hp H; cbn [maxreq_poll_next] in H.
+    { injection H as <- <-. exists []. split; [apply ext_refl|split; [exact HB|exact HH]]. }
+    destruct (limit <=? length (s_inflight s)).
+    - destruct (do_ready tp s) as [x s1] eqn:ER.
+      pose proof (BInv_ready tp lim _ _ _ _ HB ER) as HB1.
+      pose proof (BH_ready tp lim _ _ _ _ HH ER) as HH1.
+      destruct (ocall_flags_ready lim o x) as (_ & _ & _ & _ & Pn1). cbv zeta in Pn1. rewrite Hp in Pn1.
+      destruct (do_ready_core tp _ _ _ ER) as (_ & _ & _ & _ & _ & L1).
+      assert (E01 : ext s s1 [CReady x]) by (unfold ext; rewrite L1; reflexivity).
+      destruct x.
+      + destruct (base_poll_next tp (S f) s1) as [y s2] eqn:EB.
+        destruct (base_invH _ _ _ _ _ HB1 HH1 EB) as (n2 & E2 & Post2 & PostH2).
+        assert (E02 : ext s s2 ([CReady TOk] ++ n2)) by (eapply ext_trans; eauto).
+        destruct y as [q| |a| |].
+        * destruct Post2 as ((HI2 & HP2 & Hce2) & Hin2).
+          destruct (base_start_send tp (mkresp (q_id q) BThrottle) s2) as [e s3] eqn:ESS.
+          destruct (step_throttle tp lim _ s2 q e s3 HI2 HP2 Hce2 Hin2 ESS) as (rr & L3 & He & HI3 & Hp3 & Hce3 & Hi3).
+          pose proof (QH_throttle tp lim _ s2 q e s3 rr HI2 HP2 PostH2 Hin2 ESS) as HH3.
+          cbv zeta in *.
+          assert (E03 : ext s s3 (([CReady TOk] ++ n2) ++ [CSend (mkresp (q_id q) BThrottle) rr])).
+          { eapply ext_trans; [exact E02|]. unfold ext. rewrite L3. reflexivity. }
+          assert (Hh3 : handled s3).
+          { intros e0 He0. rewrite Hi3 in He0. apply in_drop_entry in He0. destruct He0 as [He0 Hne].
+            destruct HP2 as (_ & Q2 & _).
+            destruct (base_start_send_shape tp _ _ _ _ ESS) as [(_ & _ & ->)|(_ & _ & _ & _ & _ & _ & B3 & _)].
+            - destruct (classic_handled s2 e0) as [Hy|Hn]; [exact Hy|].
+              exfalso. pose proof (Q2 e0 He0 Hn) as ->. cbn in Hne. congruence.
+            - rewrite B3. destruct (classic_handled s2 e0) as [Hy|Hn]; [exact Hy|].
+              exfalso. pose proof (Q2 e0 He0 Hn) as ->. cbn in Hne. congruence. }
+          assert (HB3 : BInv (ocs (([CReady TOk] ++ n2) ++ [CSend (mkresp (q_id q) BThrottle) rr]) o) s3).
+          { rewrite ocs_app. cbn [fold_left]. rewrite ocs_app. cbn [fold_left]. exact (conj HI3 (conj Hh3 Hce3)). }
+          assert (HH3' : BH (ocs (([CReady TOk] ++ n2) ++ [CSend (mkresp (q_id q) BThrottle) rr]) o) s3).
+          { rewrite ocs_app. cbn [fold_left]. rewrite ocs_app. cbn [fold_left]. exact HH3. }
+          assert (Hp3' : o_pend (ocs (([CReady TOk] ++ n2) ++ [CSend (mkresp (q_id q) BThrottle) rr]) o) = None).
+          { rewrite ocs_app. cbn [fold_left]. rewrite ocs_app. cbn [fold_left].
+            unfold pend_id in Hp3. destruct (o_pend _) as [[[[a b] d] g]|]; [discriminate|reflexivity]. }
+          destruct e as [a|].
+          -- injection H as <- <-. eexists; split; [exact E03|split; [exact HB3|exact (conj HH3' Hp3')]].
+          -- destruct (IH _ _ _ _ _ HB3 HH3' Hp3' H) as (n4 & E4 & Post4 & PostH4).
+             eexists; split; [eapply ext_trans; [exact E03|exact E4]|]. rewrite ocs_app. split; assumption.
+        * injection H as <- <-. eexists; split; [exact E02|]. rewrite ocs_app. split; assumption.
+        * injection H as <- <-. eexists; split; [exact E02|]. rewrite ocs_app. split; assumption.
+        * injection H as <- <-. eexists; split; [exact E02|]. rewrite ocs_app. split; assumption.
+        * injection H as <- <-. eexists; split; [exact E02|]. rewrite ocs_app. split; assumption.
+      + injection H as <- <-. eexists; split; [exact E01|split; [exact HB1|exact (conj HH1 Pn1)]].
+      + injection H as <- <-. eexists; split; [exact E01|split; [exact HB1|exact (conj HH1 Pn1)]].
+    - exact (base_invH _ _ _ _ _ HB HH H).
+  Qed.
+End LoopsH.
+
+(* ---- the write side, for any predicate X that the flag-only calls and the send step preserve ---- *)
+Section WriteX.
+  Context {T : Type}.
+  Variable tp : transport T response cmsg.
+  Variable lim : option nat.
+  Notation st := (@sstate T).
+  Notation ocs := (fold_left (o_call lim)).
+
+  Variable X : ostate -> st -> Prop.
+  Hypothesis Xready : forall o (s : st) r s', X o s -> do_ready tp s = (r, s') -> X (o_call lim o (CReady r)) s'.
+  Hypothesis Xflush : forall o (s : st) r s', X o s -> do_flush tp s = (r, s') -> X (o_call lim o (CFlush r)) s'.
+  Hypothesis Xsend : forall o (s : st) m rest e s2,
+    InvU o s -> c_err (o_v o) = false -> X o s -> s_respq s = m :: rest -> resp_body m <> BThrottle ->
+    base_start_send tp m (add_permit (set_respq s rest)) = (e, s2) ->
+    (find_entry (resp_id m) (add_permit (set_respq s rest)) = None -> X o s2)
+    /\ (forall en r, find_entry (resp_id m) (add_permit (set_respq s rest)) = Some en ->
+                     X (o_call lim o (CSend m r)) s2).
+
+  Lemma ensure_invX : forall o (s : st) w s',
+    InvU o s -> c_err (o_v o) = false -> X o s -> ensure_writeable tp s = (w, s') ->
+    exists new, ext s s' new /\ wpost o s (ocs new o) s' /\ s_respq s' = s_respq s /\ X (ocs new o) s'.
+  Proof.
+    intros o s w s' HI Hce HX H. unfold ensure_writeable in H.
+    destruct (do_ready tp s) as [r s1] eqn:E1.
+    destruct (IF_ready tp lim _ _ _ _ HI Hce E1) as (I1 & C1 & P1 & W1 & L1 & Q1). cbv zeta in *.
+    pose proof (Xready _ _ _ _ HX E1) as X1'.
+    assert (X1 : ext s s1 [CReady r]) by (unfold ext; rewrite L1; reflexivity).
+    destruct r; try (injection H as <- <-; eexists;
+                     (split; [exact X1|]); (split; [exact (conj I1 (conj C1 (conj P1 W1)))|split; [exact Q1|exact X1']])).
+    destruct (do_flush tp s1) as [f s2] eqn:E2.
+    destruct (IF_flush tp lim _ _ _ _ I1 C1 E2) as (I2 & C2 & P2 & W2 & L2 & Q2). cbv zeta in *.
+    pose proof (Xflush _ _ _ _ X1' E2) as X2'.
+    assert (X2 : ext s s2 ([CReady TPending] ++ [CFlush f])).
+    { eapply ext_trans; [exact X1|]. unfold ext; rewrite L2; reflexivity. }
+    destruct f; try (injection H as <- <-; eexists; (split; [exact X2|]); rewrite ocs_app; cbn [fold_left];
+                     (split; [exact (conj I2 (conj C2 (conj (eq_trans P2 P1) (wframe_trans _ _ _ W1 W2))))|split; [congruence|exact X2']])).
+    destruct (do_ready tp s2) as [r2 s3] eqn:E3.
+    destruct (IF_ready tp lim _ _ _ _ I2 C2 E3) as (I3 & C3 & P3 & W3 & L3 & Q3). cbv zeta in *.
+    pose proof (Xready _ _ _ _ X2' E3) as X3'.
+    assert (X3 : ext s s3 (([CReady TPending] ++ [CFlush TOk]) ++ [CReady r2])).
+    { eapply ext_trans; [exact X2|]. unfold ext; rewrite L3; reflexivity. }
+    destruct r2; injection H as <- <-; eexists; (split; [exact X3|]); rewrite !ocs_app; cbn [fold_left];
+      (split; [exact (conj I3 (conj C3 (conj (eq_trans P3 (eq_trans P2 P1))
+                                               (wframe_trans _ _ _ (wframe_trans _ _ _ W1 W2) W3))))|split; [congruence|exact X3']]).
+  Qed.
+
+  Lemma pump_write_invX : forall rc o (s : st) w s',
+    InvU o s -> c_err (o_v o) = false -> no_thr s -> X o s -> pump_write tp rc s = (w, s') ->
+    exists new, ext s s' new /\ wpost o s (ocs new o) s' /\ no_thr s' /\ X (ocs new o) s'.
+  Proof.
+    intros rc o s w s' HI Hce Hnt HX H. unfold pump_write, poll_next_response in H.
+    destruct (ensure_writeable tp s) as [x s1] eqn:EW.
+    destruct (ensure_invX _ _ _ _ HI Hce HX EW) as (n1 & X1 & (I1 & C1 & P1 & W1) & Q1 & HX1).
+    assert (Hnt1 : no_thr s1) by (intros m Hm; apply Hnt; rewrite <- Q1; exact Hm).
+    assert (Hflush : forall w s',
+      (let '(f, s2) := do_flush tp s1 in
+       match f with
+       | TOk => if rc && Nat.eqb (length (s_inflight s2)) 0 then (@PEnd unit, s2) else (PPending, s2)
+       | TErr => (PErr AFlush, s2)
+       | TPending => (PPending, s2)
+       end) = (w, s') ->
+      exists new, ext s s' new /\ wpost o s (ocs new o) s' /\ no_thr s' /\ X (ocs new o) s').
+    { intros w0 s0 HH. destruct (do_flush tp s1) as [f s2] eqn:EF.
+      destruct (IF_flush tp lim _ _ _ _ I1 C1 EF) as (I2 & C2 & P2 & W2 & L2 & Q2). cbv zeta in *.
+      pose proof (Xflush _ _ _ _ HX1 EF) as HX2.
+      assert (X2 : ext s s2 (n1 ++ [CFlush f])).
+      { eapply ext_trans; [exact X1|]. unfold ext; rewrite L2; reflexivity. }
+      assert (Hnt2 : no_thr s2) by (intros m Hm; apply Hnt1; rewrite <- Q2; exact Hm).
+      assert (R : exists new, ext s s2 new /\ wpost o s (ocs new o) s2 /\ no_thr s2 /\ X (ocs new o) s2).
+      { eexists; split; [exact X2|]. rewrite ocs_app. cbn [fold_left].
+        split; [exact (conj I2 (conj C2 (conj (eq_trans P2 P1) (wframe_trans _ _ _ W1 W2))))|split; [exact Hnt2|exact HX2]]. }
+      destruct f; [destruct (rc && _)| |]; injection HH as <- <-; exact R. }
+    destruct x as [| |a].
+    - destruct (s_respq s1) as [|m q] eqn:EQ.
+      + apply (Hflush w s'). exact H.
+      + destruct (base_start_send tp m (add_permit (set_respq s1 q))) as [e s2] eqn:ES.
+        assert (Hm : resp_body m <> BThrottle) by (apply Hnt1; rewrite EQ; left; reflexivity).
+        destruct (Xsend _ _ _ _ _ _ I1 C1 HX1 EQ Hm ES) as (XA & XB).
+        destruct (add_permit_shape (set_respq s1 q)) as (A1 & A2 & A3 & A4 & A5 & A6 & A7 & A8 & A9 & A10 & A11 & A12 & A13).
+        cbv zeta in *. sproj.
+        assert (Hq2 : forall mm, In mm (s_respq s2) -> In mm (s_respq s1)).
+        { destruct (base_start_send_shape tp _ _ _ _ ES) as [(_ & _ & ->)|(_ & _ & _ & _ & _ & _ & _ & _ & _ & _ & _ & _ & _ & B12 & _)];
+            intros mm Hmm; [rewrite A11 in Hmm|rewrite B12, A11 in Hmm]; rewrite EQ; right; exact Hmm. }
+        assert (Hnt2 : no_thr s2) by (intros mm Hmm; apply Hnt1; apply Hq2; exact Hmm).
+        destruct (step_send tp lim _ s1 m q e s2 I1 C1 Hm ES)
+          as [(He & L2 & I2 & Hsub & Hieq)|(r & L2 & He & I2 & P2 & C2 & Hi2)]; cbv zeta in *.
+        * assert (W2 : wframe s1 s2 /\ X (ocs n1 o) s2).
+          { destruct (base_start_send_shape tp _ _ _ _ ES) as [(Hfn & _ & Heq)|(en & rr & _ & _ & _ & _ & _ & _ & _ & _ & _ & _ & _ & _ & _ & _ & LL)].
+            - split; [|exact (XA Hfn)]. subst s2. unfold wframe. rewrite A1, A3, A6, A7, A9. repeat split; auto.
+            - exfalso. rewrite A12 in LL. rewrite L2 in LL. clear -LL.
+              assert (length (s_log s1) = length (CSend m rr :: s_log s1)) by (rewrite <- LL; reflexivity).
+              cbn in H. lia. }
+          destruct W2 as (W2 & HX2).
+          assert (R : exists new, ext s s2 new /\ wpost o s (ocs new o) s2 /\ no_thr s2 /\ X (ocs new o) s2).
+          { exists n1. split; [unfold ext in *; rewrite L2; exact X1|].
+            split; [exact (conj I2 (conj C1 (conj P1 (wframe_trans _ _ _ W1 W2))))|split; [exact Hnt2|exact HX2]]. }
+          subst e. injection H as <- <-. exact R.
+        * assert (W2 : wframe s1 s2 /\ X (o_call lim (ocs n1 o) (CSend m r)) s2).
+          { destruct (base_start_send_shape tp _ _ _ _ ES) as [(_ & _ & Heq)|(en & rr & Hfe & _ & B1 & B2 & B3 & B4 & B5 & B6 & B7 & B8 & B9 & B10 & _)].
+            - exfalso. rewrite Heq, A12 in L2. clear -L2.
+              assert (length (s_log s1) = length (CSend m r :: s_log s1)) by (rewrite <- L2; reflexivity).
+              cbn in H. lia.
+            - split; [|exact (XB en r Hfe)]. unfold wframe. rewrite B3, B4, B5, B6, B8, A1, A3, A6, A7, A9. repeat split; auto.
+              intros e0 He0. rewrite B1, A4 in He0. apply in_drop_entry in He0. tauto. }
+          destruct W2 as (W2 & HX2).
+          assert (R : exists new, ext s s2 new /\ wpost o s (ocs new o) s2 /\ no_thr s2 /\ X (ocs new o) s2).
+          { exists (n1 ++ [CSend m r]). split; [eapply ext_trans; [exact X1|unfold ext; rewrite L2; reflexivity]|].
+            rewrite ocs_app. cbn [fold_left].
+            split; [exact (conj I2 (conj C2 (conj (eq_trans P2 P1) (wframe_trans _ _ _ W1 W2))))|split; [exact Hnt2|exact HX2]]. }
+          destruct e; injection H as <- <-; exact R.
+    - apply (Hflush w s'). exact H.
+    - injection H as <- <-. exists n1. split; [exact X1|]. split; [exact (conj I1 (conj C1 (conj P1 W1)))|split; [exact Hnt1|exact HX1]].
+  Qed.
+End WriteX.
+
+Section LoopsH2.
+  Context {T : Type}.
+  Variable tp : transport T response cmsg.
+  Variable lim : option nat.
+  Notation st := (@sstate T).
+  Notation ocs := (fold_left (o_call lim)).
+
+  (* the two instances of the write side *)
+  Definition XB (o : ostate) (s : st) : Prop := handled s /\ GH o s.
+  Definition XQ (q : treq) (o : ostate) (s : st) : Prop := PendQ o s q /\ QH o s q.
+
+  Lemma handled_core : forall (s s' : st), same_core s s' -> handled s -> handled s'.
+  Proof.
+    intros s s' (C1 & C2 & C3 & _) Hh. apply (handled_sub s s' Hh); [rewrite C3; auto|rewrite C1; reflexivity].
+  Qed.
+
+  Lemma XB_ready : forall o (s : st) r s', XB o s -> do_ready tp s = (r, s') -> XB (o_call lim o (CReady r)) s'.
+  Proof.
+    intros o s r s' (Hh & G) H. destruct (do_ready_core tp _ _ _ H) as (C & F & Q & _).
+    destruct (ocall_flags_ready lim o r) as (V8 & _ & B1 & I & Pn). cbv zeta in *.
+    split; [eapply handled_core; eauto|eapply GH_frame; eauto].
+  Qed.
+  Lemma XB_flush : forall o (s : st) r s', XB o s -> do_flush tp s = (r, s') -> XB (o_call lim o (CFlush r)) s'.
+  Proof.
+    intros o s r s' (Hh & G) H. destruct (do_flush_core tp _ _ _ H) as (C & F & Q & _).
+    destruct (ocall_flags_flush lim o r) as (V8 & _ & B1 & I & Pn). cbv zeta in *.
+    split; [eapply handled_core; eauto|eapply GH_frame; eauto].
+  Qed.
+
+  Lemma send_frames : forall m (s : st) rest e s2,
+    base_start_send tp m (add_permit (set_respq s rest)) = (e, s2) ->
+    (forall x, In x (s_inflight s2) -> In x (s_inflight s))
+    /\ map h_h (s_handlers s2) = map h_h (s_handlers s) /\ s_next_h s2 = s_next_h s
+    /\ s_aborted s2 = s_aborted s /\ s_cancels s2 = s_cancels s.
+  Proof.
+    intros m s rest e s2 H.
+    destruct (add_permit_shape (set_respq s rest)) as (A1 & A2 & A3 & A4 & A5 & A6 & A7 & A8 & A9 & A10 & A11 & A12 & A13).
+    cbv zeta in *. sproj.
+    destruct (base_start_send_shape tp _ _ _ _ H) as [(_ & _ & ->)|(en & rr & _ & _ & B1 & B2 & B3 & B4 & B5 & B6 & _)].
+    - rewrite A1, A3, A4, A6, A7. repeat split; auto.
+    - rewrite B3, B4, B5, B6, A1, A3, A6, A7. repeat split; auto.
+      intros x Hx. rewrite B1, A4 in Hx. apply in_drop_entry in Hx. tauto.
+  Qed.
+
+  Lemma XB_send : forall o (s : st) m rest e s2,
+    InvU o s -> c_err (o_v o) = false -> XB o s -> s_respq s = m :: rest -> resp_body m <> BThrottle ->
+    base_start_send tp m (add_permit (set_respq s rest)) = (e, s2) ->
+    (find_entry (resp_id m) (add_permit (set_respq s rest)) = None -> XB o s2)
+    /\ (forall en r, find_entry (resp_id m) (add_permit (set_respq s rest)) = Some en ->
+                     XB (o_call lim o (CSend m r)) s2).
+  Proof.
+    intros o s m rest e s2 HI Hce (Hh & G) Eq Hnt H.
+    destruct (send_frames _ _ _ _ _ H) as (F1 & F2 & _).
+    assert (Hh2 : handled s2) by (eapply handled_sub; eauto).
+    assert (Hheld : h_b1 (o_v o) = true -> held s (resp_id m)).
+    { intros _ e0 He0 _. exact (Hh e0 He0). }
+    destruct (GH_send tp lim o s m rest e s2 HI Hce G Eq Hnt Hheld H) as (GA & GB).
+    split; [intros Hn; split; [exact Hh2|exact (GA Hn)]|intros en r Hen; split; [exact Hh2|exact (GB en r Hen)]].
+  Qed.
+
+  Lemma XQ_ready : forall q o (s : st) r s', XQ q o s -> do_ready tp s = (r, s') -> XQ q (o_call lim o (CReady r)) s'.
+  Proof.
+    intros q o s r s' (HP & G) H. destruct (do_ready_core tp _ _ _ H) as ((C1 & C2 & C3 & C4 & C5 & C6 & C7 & C8) & F & Q & _).
+    destruct (ocall_flags_ready lim o r) as (V8 & _ & B1 & I & Pn). cbv zeta in *.
+    split; [|eapply QH_ready; eauto].
+    eapply PendQ_frame; eauto; try congruence; try (rewrite C3; auto).
+  Qed.
+  Lemma XQ_flush : forall q o (s : st) r s', XQ q o s -> do_flush tp s = (r, s') -> XQ q (o_call lim o (CFlush r)) s'.
+  Proof.
+    intros q o s r s' (HP & G) H. destruct (do_flush_core tp _ _ _ H) as ((C1 & C2 & C3 & C4 & C5 & C6 & C7 & C8) & F & Q & _).
+    destruct (ocall_flags_flush lim o r) as (V8 & _ & B1 & I & Pn). cbv zeta in *.
+    split; [|eapply QH_flush; eauto].
+    eapply PendQ_frame; eauto; try congruence; try (rewrite C3; auto).
+  Qed.
+
+  Lemma XQ_send : forall q o (s : st) m rest e s2,
+    InvU o s -> c_err (o_v o) = false -> XQ q o s -> s_respq s = m :: rest -> resp_body m <> BThrottle ->
+    base_start_send tp m (add_permit (set_respq s rest)) = (e, s2) ->
+    (find_entry (resp_id m) (add_permit (set_respq s rest)) = None -> XQ q o s2)
+    /\ (forall en r, find_entry (resp_id m) (add_permit (set_respq s rest)) = Some en ->
+                     XQ q (o_call lim o (CSend m r)) s2).
+  Proof.
+    intros q o s m rest e s2 HI Hce (HP & G) Eq Hnt H.
+    destruct (send_frames _ _ _ _ _ H) as (F1 & F2 & F3 & F4 & F5).
+    assert (GG : GH o s) by (intros Hb; destruct (G Hb) as (A & B & _); auto).
+    assert (Hheld : h_b1 (o_v o) = true -> held s (resp_id m)).
+    { intros Hb e0 He0 Hid. destruct (G Hb) as (_ & _ & PH).
+      destruct (classic_handled s e0) as [Hy|Hn]; [exact Hy|]. exfalso.
+      destruct HP as (_ & Q2 & _). pose proof (Q2 e0 He0 Hn) as ->. cbn in Hid.
+      apply (ph_noq _ _ _ PH). rewrite Hid, Eq. cbn. left. reflexivity. }
+    destruct (GH_send tp lim o s m rest e s2 HI Hce GG Eq Hnt Hheld H) as (GA & GB).
+    destruct (add_permit_shape (set_respq s rest)) as (A1 & A2 & A3 & A4 & A5 & A6 & A7 & A8 & A9 & A10 & A11 & A12 & A13).
+    cbv zeta in *. sproj.
+    assert (Hq2 : s_respq s2 = rest /\ s_cancels s2 = s_cancels s
+                  /\ forall k hr', nth_error (s_handlers s2) k = Some hr' ->
+                       exists hr, nth_error (s_handlers s) k = Some hr
+                                  /\ (h_st hr' = h_st hr \/ exists b, h_st hr = HWait b /\ h_st hr' = HPermit b)).
+    { destruct (base_start_send_shape tp _ _ _ _ H) as [(_ & _ & ->)|(en & rr & _ & _ & B1 & B2 & B3 & B4 & B5 & B6 & B7 & B8 & B9 & B10 & _)].
+      - rewrite A11, A7. repeat split; auto. intros k hr' Hk. destruct (A2 k hr' Hk) as (hr & X1 & _ & _ & X4). eauto.
+      - rewrite B10, A11, B6, A7, B3. repeat split; auto.
+        intros k hr' Hk. destruct (A2 k hr' Hk) as (hr & X1 & _ & _ & X4). eauto. }
+    destruct Hq2 as (Q2 & C2 & H2).
+    assert (PHstep : forall o', (forall k oi', nth_error (o_incs o') k = Some oi' ->
+                        exists oi, nth_error (o_incs o) k = Some oi /\ oi_id oi' = oi_id oi
+                                   /\ (is_open (oi_wire oi') = true -> is_open (oi_wire oi) = true)) ->
+                      PendH o s (q_id q) -> PendH o' s2 (q_id q)).
+    { intros o' Hinc [P1 P2 P3 P4]. constructor; rewrite ?Q2, ?C2.
+      - intros k oi' Hk Hid. destruct (Hinc k oi' Hk) as (oi & X1 & X2 & X3).
+        destruct (is_open (oi_wire oi')) eqn:Eo; [|reflexivity].
+        rewrite (P1 k oi X1 (eq_trans (eq_sym X2) Hid)) in X3. specialize (X3 eq_refl). discriminate.
+      - intros k hr' oi' Hk Hoi' Hid. destruct (Hinc k oi' Hoi') as (oi & X1 & X2 & _).
+        destruct (H2 k hr' Hk) as (hr & Y1 & Y2).
+        pose proof (P2 k hr oi Y1 X1 (eq_trans (eq_sym X2) Hid)) as Hov.
+        destruct Y2 as [Y2|(b & Y2 & _)]; [rewrite Y2; exact Hov|rewrite Y2 in Hov; destruct Hov].
+      - intros Hin. apply P3. rewrite Eq. cbn. right. exact Hin.
+      - exact P4. }
+    split.
+    - intros Hn. split.
+      + eapply PendQ_frame; eauto.
+      + intros Hb. destruct (G Hb) as (_ & _ & PH). destruct (GA Hn Hb) as (A' & B'). split; [exact A'|split; [exact B'|]].
+        apply (PHstep o); [|exact PH]. intros k oi' Hk. exists oi'. auto.
+    - intros en r Hen.
+      destruct (ocall_send_proj lim o m r) as (_ & _ & _ & _ & _ & _ & P7).
+      destruct (ocall_flags_send lim o m r) as (_ & _ & Bb). cbv zeta in *.
+      assert (P7' : o_incs (o_call lim o (CSend m r)) = close_at (last_open (resp_id m) (o_incs o)) WAnswered (o_incs o)
+                    /\ o_pend (o_call lim o (CSend m r)) = o_pend o).
+      { destruct (resp_body m); try exact P7. congruence. }
+      destruct P7' as (I & Pn).
+      split.
+      + eapply PendQ_frame; eauto.
+      + intros Hb. pose proof Hb as Hb0. rewrite Bb in Hb0. destruct (G Hb0) as (_ & _ & PH).
+        destruct (GB en r Hen Hb) as (A' & B'). split; [exact A'|split; [exact B'|]].
+        apply (PHstep _); [|exact PH]. intros k oi' Hk. rewrite I in Hk.
+        destruct (close_at_nth _ _ _ _ _ Hk) as (y & Hy & E1 & _ & _ & _ & _ & W). exists y. split; [exact Hy|split; [exact E1|]].
+        destruct W as [[_ W]|[_ W]]; rewrite W; [discriminate|auto].
+  Qed.
+
+  Lemma pump_write_invB : forall rc o (s : st) w s',
+    InvU o s -> c_err (o_v o) = false -> no_thr s -> XB o s -> pump_write tp rc s = (w, s') ->
+    exists new, ext s s' new /\ wpost o s (ocs new o) s' /\ no_thr s' /\ XB (ocs new o) s'.
+  Proof. exact (pump_write_invX tp lim XB XB_ready XB_flush XB_send). Qed.
+
+  Lemma pump_write_invQ : forall q rc o (s : st) w s',
+    InvU o s -> c_err (o_v o) = false -> no_thr s -> XQ q o s -> pump_write tp rc s = (w, s') ->
+    exists new, ext s s' new /\ wpost o s (ocs new o) s' /\ no_thr s' /\ XQ q (ocs new o) s'.
+  Proof. intro q. exact (pump_write_invX tp lim (XQ q) (XQ_ready q) (XQ_flush q) (XQ_send q)). Qed.
+
+  (* what is left of the invariant once a poll has failed *)
+  Definition ErrH (o : ostate) (s : st) : Prop :=
+    h_b1 (o_v o) = true ->
+    Safe s /\ v08 (o_v o) = true
+    /\ forall k oi, nth_error (o_incs o) k = Some oi -> oi_wire oi = WOpen -> trk s k.
+
+  Definition rpostH (r : pres treq) (o : ostate) (s : st) : Prop :=
+    match r with
+    | PReady q => QH o s q
+    | PEnd | PPending => BH o s /\ o_pend o = None
+    | PErr _ => ErrH o s
+    | PFuel => True
+    end.
+
+  Lemma ErrH_of_GH : forall o (s : st), GH o s -> ErrH o s.
+  Proof.
+    intros o s G Hb. destruct (G Hb) as (A & B). split; [exact (h_safe _ _ A)|split; [exact B|exact (h_open_tracked _ _ A)]].
+  Qed.
+
+  Lemma pend_ok_none : forall o (s : st), o_pend o = None -> pend_ok o s.
+  Proof. intros o s H. unfold pend_ok. rewrite H. exact I. Qed.
+
+  Lemma requests_invH : forall c f (s : st) r s' o,
+    cfg_limit c = lim ->
+    BInv o s -> no_thr s -> BH o s -> o_pend o = None -> requests_poll_next tp c f s = (r, s') ->
+    exists new, ext s s' new /\ rpost c r (ocs new o) s' /\ no_thr s' /\ rpostH r (ocs new o) s'.
+  Proof.
+    intros c f; induction f as [|f IH]; intros s r s' o Hlim HB Hnt HH Hp H; cbn [requests_poll_next] in H.
+    { injection H as <- <-. exists []. split; [apply ext_refl|split; [exact I|split; [exact Hnt|exact I]]]. }
+    destruct (pump_read tp c (S f) s) as [rd s1] eqn:ER.
+    assert (Hrd : exists n1, ext s s1 n1 /\ post rd (ocs n1 o) s1 /\ postH rd (ocs n1 o) s1).
+    { unfold pump_read in ER. destruct (cfg_limit c) as [l|]; [eapply maxreq_invH; eauto|eapply base_invH; eauto]. }
+    destruct Hrd as (n1 & X1 & Post1 & PostH1).
+    assert (Hq1 : s_respq s1 = s_respq s).
+    { unfold pump_read in ER. destruct (cfg_limit c) as [l|].
+      - clear -ER. revert s l rd s1 ER. generalize (S f) as g.
+        induction g as [|g IHg]; intros s l rd s1 ER; cbn [maxreq_poll_next] in ER; [injection ER as _ <-; reflexivity|].
+        destruct (l <=? length (s_inflight s)).
+        + destruct (do_ready tp s) as [x sx] eqn:E1. destruct (do_ready_core tp _ _ _ E1) as (_ & _ & Q1 & _).
+          destruct x; try (injection ER as _ <-; exact Q1).
+          destruct (base_poll_next tp (S g) sx) as [y sy] eqn:E2.
+          pose proof (respq_base tp _ _ _ _ E2) as Q2.
+          destruct y; try (injection ER as _ <-; congruence).
+          destruct (base_start_send tp (mkresp (q_id x) BThrottle) sy) as [e sz] eqn:E3.
+          pose proof (respq_start_send tp _ _ _ _ E3) as Q3.
+          destruct e; [injection ER as _ <-; congruence|].
+          rewrite (IHg _ _ _ _ ER). congruence.
+        + exact (respq_base tp _ _ _ _ ER).
+      - exact (respq_base tp _ _ _ _ ER). }
+    assert (Hnt1 : no_thr s1) by (intros m Hm; apply Hnt; rewrite <- Hq1; exact Hm).
+    destruct rd as [q| |a| |].
+    - (* a request was accepted: pump_write, then yield *)
+      destruct Post1 as ((HI1 & HP1 & Hce1) & Hin1). cbn [postH] in PostH1.
+      destruct (pump_write tp false s1) as [wr s2] eqn:EW.
+      destruct (pump_write_invQ q _ _ _ _ _ HI1 Hce1 Hnt1 (conj HP1 PostH1) EW) as (n2 & X2 & WP & Hnt2 & (HP2 & HQ2')).
+      assert (X02 : ext s s2 (n1 ++ n2)) by (eapply ext_trans; eauto).
+      pose proof (QInv_wpost _ _ _ _ _ (conj HI1 (conj HP1 Hce1)) WP) as HQ2.
+      destruct wr as [u| |a| |]; injection H as <- <-; exists (n1 ++ n2); rewrite ocs_app;
+        (split; [first [exact X02|unfold ext in *; sproj; exact X02]|]).
+      + split; [exact HQ2|split; [exact Hnt2|exact HQ2']].
+      + split; [exact HQ2|split; [exact Hnt2|exact HQ2']].
+      + split; [right; exists q, s2; split; [exact HQ2|reflexivity]|]. split; [intros m Hm; apply Hnt2; exact Hm|].
+        intros Hb. destruct (HQ2' Hb) as (A & B & _).
+        split; [|split; [exact B|]].
+        * intros k hr Hk. destruct (h_safe _ _ A k hr Hk) as [(hr' & e & Y1 & Y2 & Y3)|R]; [left|right; exact R].
+          exists hr', e. sproj. auto.
+        * intros k oi Hk Hw. destruct (h_open_tracked _ _ A k oi Hk Hw) as (hr' & e & Y1 & Y2 & Y3).
+          exists hr', e. sproj. auto.
+      + split; [exact HQ2|split; [exact Hnt2|exact HQ2']].
+      + split; [exact I|split; [exact Hnt2|exact I]].
+    - destruct (pump_write tp true s1) as [wr s2] eqn:EW.
+      destruct Post1 as (HI1 & Hh1 & Hce1). destruct PostH1 as ((Pk1 & G1) & Pn1).
+      destruct (pump_write_invB _ _ _ _ _ HI1 Hce1 Hnt1 (conj Hh1 G1) EW) as (n2 & X2 & WP & Hnt2 & (Hh2 & G2)).
+      assert (X02 : ext s s2 (n1 ++ n2)) by (eapply ext_trans; eauto).
+      pose proof (BInv_wpost _ _ _ _ (conj HI1 (conj Hh1 Hce1)) WP) as HB2.
+      assert (Pn2 : o_pend (ocs n2 (ocs n1 o)) = None) by (destruct WP as (_ & _ & P & _); congruence).
+      assert (HH2 : BH (ocs n2 (ocs n1 o)) s2) by (split; [apply pend_ok_none; exact Pn2|exact G2]).
+      destruct wr as [u| |a| |]; try (injection H as <- <-; exists (n1 ++ n2); rewrite ocs_app;
+        (split; [exact X02|split; [first [exact HB2|left; exact HB2|exact I]|split; [exact Hnt2|
+           first [exact (conj HH2 Pn2)|exact (ErrH_of_GH _ _ G2)|exact I]]]])).
+      rewrite <- ocs_app in HB2, HH2, Pn2.
+      destruct (IH _ _ _ _ Hlim HB2 Hnt2 HH2 Pn2 H) as (n3 & X3 & Post3 & Hnt3 & PostH3).
+      exists ((n1 ++ n2) ++ n3). split; [eapply ext_trans; eauto|]. rewrite ocs_app. split; auto.
+    - injection H as <- <-. exists n1. split; [exact X1|split; [left; exact Post1|split; [exact Hnt1|]]].
+      destruct PostH1 as ((_ & G1) & _). exact (ErrH_of_GH _ _ G1).
+    - destruct (pump_write tp false s1) as [wr s2] eqn:EW.
+      destruct Post1 as (HI1 & Hh1 & Hce1). destruct PostH1 as ((Pk1 & G1) & Pn1).
+      destruct (pump_write_invB _ _ _ _ _ HI1 Hce1 Hnt1 (conj Hh1 G1) EW) as (n2 & X2 & WP & Hnt2 & (Hh2 & G2)).
+      assert (X02 : ext s s2 (n1 ++ n2)) by (eapply ext_trans; eauto).
+      pose proof (BInv_wpost _ _ _ _ (conj HI1 (conj Hh1 Hce1)) WP) as HB2.
+      assert (Pn2 : o_pend (ocs n2 (ocs n1 o)) = None) by (destruct WP as (_ & _ & P & _); congruence).
+      assert (HH2 : BH (ocs n2 (ocs n1 o)) s2) by (split; [apply pend_ok_none; exact Pn2|exact G2]).
+      destruct wr as [u| |a| |]; try (injection H as <- <-; exists (n1 ++ n2); rewrite ocs_app;
+        (split; [exact X02|split; [first [exact HB2|left; exact HB2|exact I]|split; [exact Hnt2|
+           first [exact (conj HH2 Pn2)|exact (ErrH_of_GH _ _ G2)|exact I]]]])).
+      rewrite <- ocs_app in HB2, HH2, Pn2.
+      destruct (IH _ _ _ _ Hlim HB2 Hnt2 HH2 Pn2 H) as (n3 & X3 & Post3 & Hnt3 & PostH3).
+      exists ((n1 ++ n2) ++ n3). split; [eapply ext_trans; eauto|]. rewrite ocs_app. split; auto.
+    - injection H as <- <-. exists n1. split; [exact X1|split; [exact I|split; [exact Hnt1|exact I]]].
+  Qed.
+End LoopsH2.
+
+(* ------------------------------------------------------------------------------------------ *)
+(* results of a poll *)
+Lemma lastk_app : forall l x k id, lastk l k id -> oi_id x <> id -> lastk (l ++ [x]) k id.
+Proof.
+  intros l x k id L Hx k' oi' Hlt Hk'. destruct (Nat.lt_ge_cases k' (length l)) as [H|H].
+  - rewrite nth_error_app1 in Hk' by exact H. exact (L k' oi' Hlt Hk').
+  - rewrite nth_error_app2 in Hk' by exact H. destruct (k' - length l) as [|n]; cbn in Hk'.
+    + inversion Hk'; subst. exact Hx.
+    + destruct n; discriminate.
+Qed.
+
+Lemma lastk_map : forall (f : oinc -> oinc) l k id,
+  (forall i, oi_id (f i) = oi_id i) -> lastk l k id -> lastk (map f l) k id.
+Proof.
+  intros f l k id Hf L k' oi' Hlt Hk'. rewrite nth_error_map in Hk'.
+  destruct (nth_error l k') as [y|] eqn:E; cbn in Hk'; [|discriminate]. inversion Hk'; subst.
+  rewrite Hf. exact (L k' y Hlt E).
+Qed.
+
+Section ResultsH.
+  Context {T : Type}.
+  Notation st := (@sstate T).
+
+  Lemma InvH_yield : forall o o' (s s' : st) q newoi,
+    InvH o s -> length (o_incs o) = length (s_handlers s) -> PendH o s (q_id q) ->
+    o_incs o' = o_incs o ++ [newoi] -> oi_id newoi = q_id q -> oi_wire newoi <> WAnswered ->
+    s_handlers s' = s_handlers s ++ [{| h_h := q_h q; h_id := q_id q; h_st := HYielded |}] ->
+    In {| e_id := q_id q; e_h := q_h q; e_dl := q_dl q |} (s_inflight s) ->
+    s_inflight s' = s_inflight s -> s_aborted s' = s_aborted s -> s_respq s' = s_respq s ->
+    s_cancels s' = s_cancels s -> InvH o' s'.
+  Proof.
+    intros o o' s s' q newoi [H1 H2 H3 H4 H5 H6 H7] Hlen [P1 P2 P3 P4] Hi Hid Hw Hh Hin Hf Ha Hq Hc.
+    assert (Htrk : forall k, trk s k -> trk s' k).
+    { intros k (hr & e & A & B & C). exists hr, e. rewrite Hh, Hf. split; [|auto].
+      rewrite nth_error_app1; [exact A|]. apply nth_error_Some. congruence. }
+    assert (Hnew : trk s' (length (o_incs o))).
+    { eexists; eexists. rewrite Hh, Hf, Hlen. split; [apply nth_error_app_last|split; [exact Hin|reflexivity]]. }
+    assert (Hold : forall k x, nth_error (o_incs o ++ [newoi]) k = Some x ->
+              (k < length (o_incs o) /\ nth_error (o_incs o) k = Some x) \/ (k = length (o_incs o) /\ x = newoi)).
+    { intros k x Hk. destruct (Nat.lt_ge_cases k (length (o_incs o))) as [H|H].
+      - left. rewrite nth_error_app1 in Hk by exact H. auto.
+      - right. rewrite nth_error_app2 in Hk by exact H. destruct (k - length (o_incs o)) as [|n] eqn:E; cbn in Hk.
+        + inversion Hk. split; [lia|reflexivity].
+        + destruct n; discriminate. }
+    assert (HoldH : forall k hr, nth_error (s_handlers s ++ [{| h_h := q_h q; h_id := q_id q; h_st := HYielded |}]) k = Some hr ->
+              (k < length (s_handlers s) /\ nth_error (s_handlers s) k = Some hr)
+              \/ (k = length (s_handlers s) /\ hr = {| h_h := q_h q; h_id := q_id q; h_st := HYielded |})).
+    { intros k x Hk. destruct (Nat.lt_ge_cases k (length (s_handlers s))) as [H|H].
+      - left. rewrite nth_error_app1 in Hk by exact H. auto.
+      - right. rewrite nth_error_app2 in Hk by exact H. destruct (k - length (s_handlers s)) as [|n] eqn:E; cbn in Hk.
+        + inversion Hk. split; [lia|reflexivity].
+        + destruct n; discriminate. }
+    assert (Hlast_new : lastk (o_incs o ++ [newoi]) (length (o_incs o)) (q_id q)).
+    { intros k' oi' Hlt Hk'. exfalso. assert (k' < length (o_incs o ++ [newoi])) by (apply nth_error_Some; congruence).
+      rewrite app_length in H. cbn in H. lia. }
+    constructor; rewrite ?Hi, ?Hh, ?Hq, ?Hc.
+    - intros k oi Hk Ho. destruct (Hold k oi Hk) as [[_ Hk']|[-> _]]; [apply Htrk; eapply H1; eauto|exact Hnew].
+    - intros k oi Hk Ho. destruct (Hold k oi Hk) as [[_ Hk']|[-> ->]].
+      + apply lastk_app; [eapply H2; eauto|]. rewrite Hid. intros Heq.
+        rewrite (P1 k oi Hk' (eq_sym Heq)) in Ho. discriminate.
+      + rewrite Hid. exact Hlast_new.
+    - intros k hr oi Hk Hoi Hu. destruct (Hold k oi Hoi) as [[Hlt Hoi']|[-> ->]].
+      + destruct (HoldH k hr Hk) as [[_ Hk']|[Hk' _]]; [|lia].
+        destruct (H3 k hr oi Hk' Hoi' Hu) as (L & W & Q). split; [|auto].
+        apply lastk_app; [exact L|]. rewrite Hid. intros Heq.
+        exact (unsent_not_over _ Hu (P2 k hr oi Hk' Hoi' (eq_sym Heq))).
+      + rewrite Hid. split; [exact Hlast_new|split; [exact Hw|exact P3]].
+    - exact H4.
+    - intros m Hm. destruct (H5 m Hm) as (k & hr & oi & A & B & C & D & E & F & G).
+      exists k, hr, oi. repeat split; auto.
+      + rewrite nth_error_app1; [exact A|]. apply nth_error_Some. congruence.
+      + rewrite nth_error_app1; [exact B|]. apply nth_error_Some. congruence.
+      + apply lastk_app; [exact D|]. rewrite Hid. intros Heq. apply P3. rewrite Heq. apply in_map. exact Hm.
+    - intros id Hin'. destruct (H6 id Hin') as (k & hr & oi & A & B & C & D & E & F & G).
+      exists k, hr, oi. repeat split; auto.
+      + rewrite nth_error_app1; [exact A|]. apply nth_error_Some. congruence.
+      + rewrite nth_error_app1; [exact B|]. apply nth_error_Some. congruence.
+      + apply lastk_app; [exact D|]. rewrite Hid. intros Heq. apply P4. rewrite Heq. exact Hin'.
+    - intros k hr Hk. rewrite Hh in Hk. destruct (HoldH k hr Hk) as [[_ Hk']|[-> ->]].
+      + destruct (H7 k hr Hk') as [Ht|[Hab|Hov]]; [left; apply Htrk; exact Ht|right; left; rewrite Ha; exact Hab|right; right; exact Hov].
+      + left. rewrite <- Hlen. exact Hnew.
+  Qed.
+
+  (* wires move towards closed everywhere (settle, age, late marks) *)
+  Lemma InvH_map : forall o o' (s s' : st) (f : oinc -> oinc),
+    InvH o s -> o_incs o' = map f (o_incs o) ->
+    (forall i, oi_id (f i) = oi_id i /\ oi_done (f i) = oi_done i) ->
+    (forall i, oi_wire (f i) = WOpen -> oi_wire i = WOpen) ->
+    (forall i, is_open (oi_wire (f i)) = true -> is_open (oi_wire i) = true) ->
+    (forall i, oi_wire (f i) = WAnswered -> oi_wire i = WAnswered) ->
+    s_handlers s' = s_handlers s -> s_inflight s' = s_inflight s -> s_aborted s' = s_aborted s ->
+    s_respq s' = s_respq s -> s_cancels s' = s_cancels s -> InvH o' s'.
+  Proof.
+    intros o o' s s' f [H1 H2 H3 H4 H5 H6 H7] Hi Hf Hwo Hop Hwa E2 E3 E4 E5 E6.
+    assert (Hnth : forall k x, nth_error (map f (o_incs o)) k = Some x ->
+              exists y, nth_error (o_incs o) k = Some y /\ x = f y).
+    { intros k x Hk. rewrite nth_error_map in Hk. destruct (nth_error (o_incs o) k) as [y|]; cbn in Hk; [|discriminate].
+      inversion Hk. eauto. }
+    assert (Hfwd : forall k y, nth_error (o_incs o) k = Some y -> nth_error (map f (o_incs o)) k = Some (f y)).
+    { intros k y Hk. rewrite nth_error_map, Hk. reflexivity. }
+    assert (Htrk : forall k, trk s k -> trk s' k).
+    { intros k (hr & e & A & B & C). exists hr, e. rewrite E2, E3. auto. }
+    constructor; rewrite ?Hi, ?E2, ?E5, ?E6.
+    - intros k oi Hk Ho. destruct (Hnth k oi Hk) as (y & Hy & ->). apply Htrk. apply (H1 k y Hy). auto.
+    - intros k oi Hk Ho. destruct (Hnth k oi Hk) as (y & Hy & ->). destruct (Hf y) as (F1 & _). rewrite F1.
+      apply lastk_map; [intros i; apply Hf|]. apply (H2 k y Hy). auto.
+    - intros k hr oi Hk Hoi Hu. destruct (Hnth k oi Hoi) as (y & Hy & ->). destruct (Hf y) as (F1 & _). rewrite F1.
+      destruct (H3 k hr y Hk Hy Hu) as (L & W & Q). split; [apply lastk_map; [intros i; apply Hf|exact L]|split; [|exact Q]].
+      intros Hx. apply W. apply Hwa. exact Hx.
+    - exact H4.
+    - intros m Hm. destruct (H5 m Hm) as (k & hr & oi & A & B & C & D & E & F & G).
+      exists k, hr, (f oi). destruct (Hf oi) as (F1 & F2). rewrite F1, F2. repeat split; auto.
+      all: try (apply lastk_map; [intros i0; apply Hf|assumption]).
+      all: try (intros Hx; apply G, Hwa, Hx).
+    - intros id Hin. destruct (H6 id Hin) as (k & hr & oi & A & B & C & D & E & F & G).
+      exists k, hr, (f oi). destruct (Hf oi) as (F1 & F2). rewrite F1. repeat split; auto.
+      all: try (apply lastk_map; [intros i0; apply Hf|assumption]).
+      all: try (intros Hx; first [apply G, Hwa, Hx|apply F, Hwo, Hx]).
+    - intros k hr Hk. rewrite E2 in Hk. destruct (H7 k hr Hk) as [Ht|[Hab|Hov]]; auto. right; left. rewrite E4. exact Hab.
+  Qed.
+End ResultsH.
+
+(* flags through the result of a poll *)
+Lemma o_result_yield_flags : forall o k id dl tr body,
+  let o' := o_result o (OYield k id dl tr body) in
+  v08 (o_v o') = v08 (o_v o)
+                 && (match o_pend o with
+                     | Some (id', dl', tr', body') => N.eqb id id' && N.eqb dl dl' && N.eqb tr tr' && N.eqb body body'
+                     | None => false end && Nat.eqb k (length (o_incs o)))
+                 && not_must id (o_incs o)
+  /\ v04 (o_v o') = v04 (o_v o) /\ h_b1 (o_v o') = h_b1 (o_v o).
+Proof.
+  intros o k id dl tr body. cbv zeta. unfold o_result.
+  match goal with |- context [accept_id id ?x] => destruct (accept_id_flags id x) as (D1 & D2 & D3) end.
+  oproj. rewrite D1, D2, D3. oproj. rewrite ?andb_true_r. repeat split; reflexivity.
+Qed.
+
+Lemma finish_idle_flags : forall o,
+  v08 (o_v (finish_idle o)) = v08 (o_v o) && (match o_pend o with None => true | Some _ => false end)
+  /\ v04 (o_v (finish_idle o)) = v04 (o_v o) /\ h_b1 (o_v (finish_idle o)) = h_b1 (o_v o).
+Proof.
+  intros o. unfold finish_idle. oproj. destruct (o_blocked o); oproj; rewrite ?andb_true_r; repeat split; reflexivity.
+Qed.
+
+Lemma o_result_err_flags : forall o a,
+  let o' := o_result o (OStreamErr a) in
+  v08 (o_v o') = v08 (o_v o) /\ v04 (o_v o') = v04 (o_v o) /\ h_b1 (o_v o') = h_b1 (o_v o).
+Proof. intros o a. cbv zeta. unfold o_result. oproj. rewrite ?andb_true_r. repeat split; reflexivity. Qed.
+
+Lemma o_gauges_flags : forall st' bl o a b,
+  let o' := o_gauges st' bl o a b in
+  v08 (o_v o') = v08 (o_v o) /\ v04 (o_v o') = v04 (o_v o) /\ h_b1 (o_v o') = h_b1 (o_v o).
+Proof.
+  intros st' bl o a b. cbv zeta. unfold o_gauges. destruct st'; [|destruct bl]; oproj; rewrite ?andb_true_r;
+    repeat split; reflexivity.
+Qed.
+
+Lemma ocall_v04_b1 : forall lim o c,
+  v04 (o_v (o_call lim o c)) = v04 (o_v o) /\ (h_b1 (o_v (o_call lim o c)) = true -> h_b1 (o_v o) = true).
+Proof.
+  intros lim o c. destruct c as [r|m r|r|r|r].
+  - destruct (ocall_flags_ready lim o r) as (_ & A & B & _). cbv zeta in *. split; [exact A|congruence].
+  - destruct (ocall_flags_send lim o m r) as (_ & A & B). cbv zeta in *. split; [exact A|congruence].
+  - destruct (ocall_flags_flush lim o r) as (_ & A & B & _). cbv zeta in *. split; [exact A|congruence].
+  - unfold o_call. fold (pre_err o). destruct (pre_err_flags o) as (_ & F2).
+    destruct (pre_err_proj o) as (_ & _ & _ & _ & _ & _ & _ & _ & _ & _ & _ & _ & _ & _ & A15 & _).
+    oproj. rewrite ?andb_true_r. split; [exact F2|congruence].
+  - destruct (ocall_flags_next lim o r) as (_ & A & B). cbv zeta in *. split; [exact A|].
+    rewrite B. intros H. apply andb_true_iff in H. tauto.
+Qed.
+
+Lemma ocs_v04_b1 : forall lim new o,
+  v04 (o_v (fold_left (o_call lim) new o)) = v04 (o_v o)
+  /\ (h_b1 (o_v (fold_left (o_call lim) new o)) = true -> h_b1 (o_v o) = true).
+Proof.
+  intros lim new; induction new as [|c new IH]; intros o; cbn [fold_left]; [auto|].
+  destruct (IH (o_call lim o c)) as (A & B). destruct (ocall_v04_b1 lim o c) as (D & E). split; [congruence|auto].
+Qed.
+
 (* ------------------------------------------------------------------------------------------ *)
 (* INTERFACE (for groups B and C).  Along every run, while h_b1 && h_stop hold:
      Safe s            every handler is tracked, aborted or over (also after a stream error);
@@ -660,10 +1571,22 @@ Section TopH.
   Context {T : Type}.
   Notation st := (@sstate T).
 
+  (* clause (i) alone: it survives a stream error *)
+  Definition OpenTrk (o : ostate) (s : st) : Prop :=
+    forall k oi, nth_error (o_incs o) k = Some oi -> oi_wire oi = WOpen -> trk s k.
+
   Definition TopH (o : ostate) (s : st) : Prop :=
     h_stop (o_v o) = true -> h_b1 (o_v o) = true ->
-    Safe s /\ v08 (o_v o) = true /\ v04 (o_v o) = true
+    Safe s /\ OpenTrk o s /\ v08 (o_v o) = true /\ v04 (o_v o) = true
     /\ (c_err (o_v o) = false -> InvH o s).
+
+  Lemma opentrk_entry : forall o (s : st) k hr oi,
+    OpenTrk o s -> nth_error (s_handlers s) k = Some hr -> nth_error (o_incs o) k = Some oi ->
+    oi_wire oi = WOpen -> exists e, In e (s_inflight s) /\ e_h e = h_h hr.
+  Proof.
+    intros o s k hr oi H Hk Hoi Hw. destruct (H k oi Hoi Hw) as (hr' & e & A & B & C).
+    rewrite Hk in A. inversion A; subst hr'. eauto.
+  Qed.
 
   Lemma invh_open_entry : forall o (s : st) k hr oi,
     InvH o s -> nth_error (s_handlers s) k = Some hr -> nth_error (o_incs o) k = Some oi ->
